@@ -2,6 +2,7 @@ import InfluxQL.Model.ParserStmt
 import InfluxQL.Lemmas.Digits
 import InfluxQL.Lemmas.ParserTok
 import InfluxQL.Lemmas.IntLit
+import InfluxQL.Props.C03
 /-
 C01 — the parser accepts the grammar and builds the denoted AST.
 
@@ -173,5 +174,16 @@ example : (parseOptTokInt .LIMIT).run (exLimitState 3) = .ok (10, exLimitState 1
 
 example : (parseOptTokInt .OFFSET).run (exLimitState 1) = .ok (0, exLimitState 1) :=
   optTokInt_absent .OFFSET (exLimitState 1) 0 ⟨.END, ⟨0, 9⟩, []⟩ rfl rfl (by decide) (by decide) (by decide) (by decide)
+
+/-! ## Operators: the precedence table the expression parser consults -/
+
+/-- The regenerated precedence table is the five levels the property names; with
+`C03.chain_wellGrouped` / `C03.chain_unique` this fixes the nesting of every operator chain inside
+every statement (a change of one level in token.go breaks this obligation for C01 as well). -/
+theorem gen_precedence_levels :
+    ([Gen.Token.MUL, .DIV, .MOD, .BITWISE_AND].all (·.precedence == 5)) ∧
+    ([Gen.Token.ADD, .SUB, .BITWISE_OR, .BITWISE_XOR].all (·.precedence == 4)) ∧
+    ([Gen.Token.EQ, .NEQ, .LT, .LTE, .GT, .GTE, .EQREGEX, .NEQREGEX].all (·.precedence == 3)) ∧
+    Gen.Token.AND.precedence = 2 ∧ Gen.Token.OR.precedence = 1 := C03.gen_precedence_levels
 
 end InfluxQL.C01
